@@ -9,7 +9,7 @@ from ..runner import Acc, watchdog, Hang
 
 ID = 'C10'
 LEVEL = 'model_checking'
-RULE = ('(large: sources of 1200 and 4000 facts, each offered three times - twice as a string, once as a file - with each of 10 tokens that cannot start a clause inserted behind fact 11, 999, 1000, 1001, the middle and the last-but-one fact: rejected as a whole) (deep: a term nested 100..1000 levels - compound, list, parentheses, list tails - alone, between facts, as a rule head, in a rule body, and with one token too many: the compilation raises or every clause head is defined, never only the clauses behind the deep one) (before a text outside the language is compiled, the text obtained by gluing its blank-separated words together - often a valid program - is compiled, so that nothing remembered from one text can vouch for another) seed sentences: EVERY clause or directive of the documented grammar with <= N tokens over one representative '
+RULE = ('(bytes: files whose content is not valid UTF-8 - 8 byte sequences at 7 places incl. inside quoted atoms and comments - are rejected by compile_prolog_from_file) (large: sources of 1200 and 4000 facts, each offered three times - twice as a string, once as a file - with each of 10 tokens that cannot start a clause inserted behind fact 11, 999, 1000, 1001, the middle and the last-but-one fact: rejected as a whole) (deep: a term nested 100..1000 levels - compound, list, parentheses, list tails - alone, between facts, as a rule head, in a rule body, and with one token too many: the compilation raises or every clause head is defined, never only the clauses behind the deep one) (before a text outside the language is compiled, the text obtained by gluing its blank-separated words together - often a valid program - is compiled, so that nothing remembered from one text can vouch for another) seed sentences: EVERY clause or directive of the documented grammar with <= N tokens over one representative '
         'per token class, every two-clause program built from the clauses of <= 4 tokens, and the repository\'s sample '
         'files; for each seed EVERY single edit: delete / duplicate token i, swap tokens i,i+1, replace token i by the '
         'other members of its class, insert each of the 21 token kinds and each of 32 foreign character sequences (ASCII and non-ASCII look-alikes of lexicon characters) at '
@@ -319,17 +319,64 @@ def check_big(case):
             % (n, BIG_TOKENS[ti], pos, have, n), None)
 
 
+# ---- files that are not text at all ---------------------------------------------------------------------------
+# A source file whose bytes are not valid UTF-8 is not a program: compile_prolog_from_file rejects it, wherever the
+# bad bytes are - between tokens, inside a quoted atom, inside a comment, at the very end (a truncated character).
+BAD_BYTES = [b'\xff', b'\xfe\xff', b'\xc3', b'\xe4\xba', b'\x80', b'\xc3\x28', b'\xed\xa0\x80', b'\xf8\x88\x80\x80\x80']
+BYTE_PLACES = [('between-tokens', b'foo(a). %s bar(b).\n'), ('in-quoted-atom', b"colour('caf%s', red).\ncolour('cafe', blue).\n"), ('in-comment', b'foo(a).\n%% note %s here\nbar(b).\n'),
+               ('at-the-end', b"foo(a).\nbar('x%s"), ('at-the-end-of-a-comment', b'foo(a).\n%% %s'), ('first-bytes', b'%s foo(a).\n'), ('in-atom-name', b'fo%so(a).\n')]
+
+
+def byte_cases():
+    idx = 0
+    for bi in range(len(BAD_BYTES)):
+        for pi in range(len(BYTE_PLACES)):
+            yield idx, (bi, pi)
+            idx += 1
+
+
+def check_bytes(case):
+    import os
+    import tempfile
+    bi, pi = case
+    data = BYTE_PLACES[pi][1].replace(b'%s', BAD_BYTES[bi]).replace(b'%%', b'%')
+    fd, path = tempfile.mkstemp(suffix='.prolog', prefix='verif-c10-')
+    try:
+        with os.fdopen(fd, 'wb') as f:
+            f.write(data)
+        try:
+            out = impl.compiler.compile_prolog_from_file(path, impl.Ctx)
+        except Exception as e:  # noqa: BLE001
+            return ('ok', None, None, ('bytes', 'raised', type(e).__name__))
+    finally:
+        os.unlink(path)
+    return ('violation', 'compiled-text-outside-grammar:not-utf8', 'a file holding the bytes %r (%s: %r is not UTF-8) was compiled; defined: %s'
+            % (data, BYTE_PLACES[pi][0], BAD_BYTES[bi], _safe_defs(out)), None)
+
+
 NSH = 64
 
 
 def plan(tier):
-    return [(tier, kind, k, NSH) for kind in ('seeds', 'pairs', 'samples') for k in range(NSH)] + [(tier, 'deep', k, 4) for k in range(4)] + [(tier, 'big', k, 16) for k in range(16)]
+    return [(tier, kind, k, NSH) for kind in ('seeds', 'pairs', 'samples') for k in range(NSH)] + [(tier, 'deep', k, 4) for k in range(4)] + [(tier, 'big', k, 16) for k in range(16)] + [(tier, 'bytes', 0, 1)]
 
 
 def run_shard(spec):
     tier, kind, k, n = spec
     acc = Acc()
     maxtok = 7 if tier == 'quick' else 9
+    if kind == 'bytes':
+        for idx, case in byte_cases():
+            acc.n['evaluations'] += 1
+            acc.n['validated'] += 1
+            acc.n['transitions'] += 1
+            st, sig, detail, outcome = check_bytes(case)
+            if st == 'violation':
+                acc.violation(sig, (5, idx), {'bytes': list(case)}, detail, key='bytes|%s' % (list(case),))
+            else:
+                acc.outcome(outcome)
+                acc.n['nontrivial'] += 1
+        return acc
     if kind == 'big':
         for idx, case in big_cases():
             if idx % n != k:
@@ -401,6 +448,9 @@ def run_shard(spec):
 
 
 def replay(case):
+    if 'bytes' in case:
+        st, sig, detail, _ = check_bytes(tuple(case['bytes']))
+        return [(sig, detail)] if st == 'violation' else []
     if 'big' in case:
         st, sig, detail, _ = check_big(tuple(case['big']))
         return [(sig, detail)] if st == 'violation' else []
